@@ -2,7 +2,7 @@
 from ..facts import AnchorMissing, callee_def, op_place, op_const, is_bare
 from ..util import (SUBR, RTRAIT, ends, site, fn_key, callee_method, require, has_call, has_field, find_dispatch,
                     closure_bodies_created_in, transitive_closures, edge_is_true, src_field, edges_where,
-                    unreachable_without_edges, deep_atoms, direct_field, direct_place, origin)
+                    unreachable_without_edges, deep_atoms, direct_field, direct_place, origin, reach_with_bool_consts)
 from ..fin import Fin, Need, NotAnalysable
 
 EXPLANATION = (
@@ -171,8 +171,11 @@ def rule_c(ctx):
         listed = {n for vs in by_target.values() for n in vs}
         if t["otherwise"] is not None and b.term(t["otherwise"])["k"] != "unreachable":
             by_target.setdefault(t["otherwise"], []).extend(sorted(set(names.values()) - listed))
+        # the loop the dispatch sits in: stop exploring at its header (a block that dominates the dispatch and is
+        # reachable from it)
+        hdrs = {x for x in b.reachable() if b.dominates(x, disp) and x in b.reach_from(disp) and x != disp}
         for tb, vs in by_target.items():
-            region = [x for x in b.reachable() if b.dominates(tb, x)]
+            region = sorted(reach_with_bool_consts(b, tb, stop=hdrs | {disp}))
             calls = [(x, b.term(x)) for x in region if b.term(x)["k"] == "call" and
                      callee_method(b.term(x)) in ("join_below", "join_above")]
             for vn in vs:
@@ -302,7 +305,7 @@ def rule_e(ctx):
     pcs = b.calls(lambda cd, t: ends(cd, "TaggedLine::<T>::push_char"))
     require(len(pcs) == 1, "one push_char in append_columns_with_borders")
     pbb, pt = pcs[0]
-    pl = op_place(pt["args"][1])
+    pl = direct_place(b, pt["args"][1])  # through copies: the glyph may be chosen once, before the loops
     require(pl is not None and is_bare(pl), "separator glyph must be a local")
     glyphs = {}
     for r in b.defs()[pl["l"]]:
